@@ -91,6 +91,9 @@ func init() {
 		"errors.New":               hNewError,
 		"context.WithValue":        hCtxWithValue,
 		"slices.Contains":          hSlicesContains,
+		"errors.Is":                hErrorsIs,
+		"(*sync.Mutex).Lock":       hMutex(1),
+		"(*sync.Mutex).Unlock":     hMutex(-1),
 		"crypto/elliptic.P224":     hNonNilIface("crypto/elliptic.P224"),
 		"crypto/elliptic.P256":     hNonNilIface("crypto/elliptic.P256"),
 		"crypto/elliptic.P384":     hNonNilIface("crypto/elliptic.P384"),
@@ -313,5 +316,28 @@ func hPtrOrErr(name string) stdHandler {
 		n := len(res.C)
 		st.assume(Implies(Eq(res.C[n-2], IntConst(0)), Not(Eq(res.C[0], IntConst(0)))))
 		k(st, res, false)
+	}
+}
+
+func errIs(err, target Val) *Term {
+	return UF("errors.is", BoolSort, err.C[0], err.C[1], target.C[0], target.C[1])
+}
+
+func hErrorsIs(x *Exec, fr *Frame, st *State, site ssa.Instruction, callee *ssa.Function, args []Val, k Kont) {
+	x.assumeNote("assumed contract errors.Is: pure and deterministic in (err, target); false for a nil err with a non-nil target")
+	t := errIs(args[0], args[1])
+	st.assume(Implies(And(Eq(args[0].C[0], IntConst(0)), Not(Eq(args[1].C[0], IntConst(0)))), Not(t)))
+	k(st, Val{T: types.Typ[types.Bool], C: []*Term{t}}, false)
+}
+
+// hMutex: Lock/Unlock adjust the ghost variable lockHeld when it is declared (a per-path lock depth).
+func hMutex(delta int64) stdHandler {
+	return func(x *Exec, fr *Frame, st *State, site ssa.Instruction, callee *ssa.Function, args []Val, k Kont) {
+		x.assumeNote("assumed contract sync.Mutex: Lock/Unlock do not panic; the ghost lock depth lockHeld is adjusted")
+		x.nilCheck(fr, st, args[0], site.Pos(), "mutex")
+		if g, ok := st.ghost["lockHeld"]; ok {
+			st.ghost["lockHeld"] = Val{T: g.T, C: []*Term{BVBin("bvadd", g.C[0], BVConst(delta, g.C[0].Sort.Width))}}
+		}
+		k(st, Val{T: types.NewTuple()}, false)
 	}
 }
